@@ -164,8 +164,9 @@ def main(argv):
         # committed regression corpus is replayed first by an extra shard
         corpus = sorted(glob.glob(os.path.join(ROOT, 'corpus', pid, '*.json')))
         if corpus:
-            # one process per corpus case (cases of different languages cannot share a process)
-            specs = [{'corpus': [c]} for c in corpus] + specs
+            # one process per corpus case (cases of different languages cannot share a process); appended after the
+            # regular shards so that their shard numbers (and seeds) do not depend on the size of the corpus
+            specs = specs + [{'corpus': [c]} for c in corpus]
     timeout = getattr(mod, 'HARD_TIMEOUT', {}).get(a.tier, 3600 if a.tier == 'quick' else 6 * 3600)
     results = run_workers(pid, a.tier, seed, specs, outdir, timeout)
 
